@@ -313,6 +313,36 @@ pub fn run(ctx: &mut Ctx) -> Report {
 			}
 		}
 	}
+	// 4b. IA5String values in the three alternative-name forms, with the shapes name-handling code
+	// likes to "normalise": trailing / leading dots and spaces, upper case, a wildcard, an empty
+	// text, control characters — whatever the constructor accepts is written as it is
+	{
+		let shapes = ["example.com.", "example.com..", ".example.com", ".", "", " example.com", "example.com ", "EXAMPLE.Com", "*.example.com", "a\tb", "a\u{0}b", "xn--bcher-kva.example", "user@EXAMPLE.com.", "http://example.com/.", "a@b@c", "%41"];
+		for t in shapes {
+			let Some(stored) = real_ctor("ia5", t) else { continue };
+			let mut p = PCert::empty();
+			p.serial = Some(vec![1]);
+			p.dn = Dn(vec![(DnT::Cn, DnV::Ia5(t.to_string()))]);
+			p.san = vec![San::Dns(t.to_string()), San::Rfc822(t.to_string()), San::Uri(t.to_string())];
+			let out = crate::props::certcase::run_cert_case(ctx, &mut drv, &p, None, "ed25519", false);
+			rep.case(&format!("alternative names {:?}", t), true);
+			if out.real != out.model {
+				rep.disagree("C13:serialise", "model and implementation differ on a certificate carrying accepted string values", out.replay());
+			}
+			if out.real.starts_with("panic") || out.real.starts_with("(err") {
+				rep.violate("C13:serialise:ia5:alternative-name", "an accepted IA5String cannot be serialised in an alternative name", out.replay());
+			} else if let Some(tbs) = unhex(&out.real[4..out.real.len() - 1]) {
+				for (tag, what) in [(0x82u8, "dNSName"), (0x81, "rfc822Name"), (0x86, "uniformResourceIdentifier")] {
+					let mut needle = vec![tag];
+					needle.extend(crate::props::certcase::der_len(stored.len()));
+					needle.extend(&stored);
+					if !tbs.windows(needle.len()).any(|w| w == &needle[..]) {
+						rep.violate(&format!("C13:serialise:ia5:{}", what), "an accepted IA5String placed in an alternative name does not decode to the same text", format!("text {:?} as {}\n{}", t, what, out.replay()));
+					}
+				}
+			}
+		}
+	}
 	// 5. the other ways in and out of the five types: TryFrom<String>, FromStr, and for the types
 	// that hand out text, as_str / AsRef<str> / Display / PartialEq with str, String, &str, &String.
 	// All ways in must agree (same acceptance, same stored bytes, same error), all ways out must
@@ -322,7 +352,7 @@ pub fn run(ctx: &mut Ctx) -> Report {
 		fn err_of<T>(r: &Result<T, rcgen::Error>) -> Option<String> {
 			r.as_ref().err().map(|e| format!("{:?}", e))
 		}
-		let mut texts: Vec<String> = vec!["".into(), "a".into(), "Test CA 1".into(), "a?b".into(), "a*b".into(), "a@b".into(), "\u{7f}".into(), "\u{80}".into(), "\u{0}".into(), "\u{1f}".into(), "\u{ffff}".into(), "\u{fffe}".into(), "\u{10000}".into(), "gr\u{fc}n".into(), "x".repeat(300)];
+		let mut texts: Vec<String> = vec!["".into(), "a".into(), "Test CA 1".into(), "a?b".into(), "a*b".into(), "a@b".into(), "\u{7f}".into(), "\u{80}".into(), "\u{0}".into(), "\u{1f}".into(), "\u{ffff}".into(), "\u{fffe}".into(), "\u{10000}".into(), "gr\u{fc}n".into(), "x".repeat(300), " US".into(), "US ".into(), "US\n".into(), "\tUS".into(), " ".into(), "\r\nUS\r\n".into()];
 		for kind in KINDS {
 			for _ in 0..(if ctx.thorough { 400 } else { 40 }) {
 				texts.push(random_text(&mut rng, kind));
